@@ -289,7 +289,11 @@ def _run_main(prog, tier):
         obs.append(formula_ob("kernel-derivative-terms", qual(kc, gt) + "[R]", res.items[1], wantR, COV, gt.lineno,
                               what="R = d^2 k(q, q') / dq dq' at q = q' (per dimension)"))
         ret = last_return(gt)
-        okT = isinstance(ret.value, ast.Tuple) and U(ret.value.elts[0]).endswith(".T")
+        # as a resolved term: the transpose may be applied where the value is built, or at the return
+        rt_ = Resolver(gt, prog, kc.module, kc).return_terms()
+        t0_ = rt_[0].elts[0] if len(rt_) == 1 and isinstance(rt_[0], ast.Tuple) and rt_[0].elts else None
+        okT = t0_ is not None and ((isinstance(t0_, ast.Attribute) and t0_.attr == "T") or
+                                   (isinstance(t0_, ast.Call) and U(t0_.func).split(".")[-1] == "transpose"))
         if not okT:
             obs.append(struct_ob("kernel-derivative-terms", qual(kc, gt) + "[layout]", False,
                                  "the first returned term must be transposed to (dimensions x points), the layout the regressor multiplies with",
